@@ -73,6 +73,14 @@ def expect_inv(r, inv, what):
 def run(ctx):
     thorough = ctx.tier == "thorough"
     ncpu = os.cpu_count() or 4
+    # vlib names TLC's output file by a millisecond stamp: keep the starts of concurrent runs a few ms apart
+    raw_tlc = ctx.tlc
+
+    def spaced_tlc(*a, **kw):
+        with Par.lock:
+            time.sleep(0.005)
+        return raw_tlc(*a, **kw)
+    ctx.tlc = spaced_tlc
     sS = ctx.spec_copy("SctpStream")
     sL = ctx.spec_copy("DtlsListener")
     bg = Par()
@@ -403,7 +411,7 @@ def run(ctx):
         if tr["inv"]:
             ctx.violation("trace:stream:invariant:%s" % tr["inv"], "a recorded real stream trace reaches a state violating %s" % tr["inv"],
                           {"tlc": tr["out"][-3000:]})
-        elif not prop_viol:
+        elif not any(key.startswith("stream:") for key, _, _ in prop_viol):
             raise vlib.InfraError("production-size stream trace rejected by Trace_SctpStream at event %d (%s after %s) although no property-level "
                                   "divergence was observed: the model misrepresents the code" % (reached, json.dumps(bad), json.dumps(prev)))
         else:
@@ -415,9 +423,10 @@ def run(ctx):
             kinds.setdefault(which, []).append(r)
         msg = "; ".join("%s: %d (e.g. after %s want %s got %s)" % (k, len(v), " ; ".join(v[0].get("ops", [])), json.dumps(v[0].get("want"))[:300],
                                                                   json.dumps(v[0].get("got"))[:300]) for k, v in kinds.items())
-        if not prop_viol:
-            raise vlib.InfraError("the real code diverges from the specification in the projected state only (no property-level "
-                                  "consequence observed): the model misrepresents the code - " + msg)
+        unexplained = [k for k in kinds if not any(key.startswith(k + ":") for key, _, _ in prop_viol)]
+        if unexplained:
+            raise vlib.InfraError("the real code diverges from the specification in the projected state only (%s path; no property-level "
+                                  "consequence observed): the model misrepresents the code - %s" % ("/".join(unexplained), msg))
         ctx.notes.append("projected-state divergences accompanying the violations above: " + msg[:1500])
 
     ctx.cov["evaluations"] = stream_beh + sw["behaviours"] + sh["runs"] + sl["scenarios"] + len(stream_traces) + sc["secrets"]
